@@ -4,6 +4,7 @@ import (
 	"fmt"
 	"go/constant"
 	"go/types"
+	"sort"
 	"strings"
 
 	"golang.org/x/tools/go/ssa"
@@ -301,10 +302,7 @@ func runC01Rest(c *Ctx, isTA *ssa.Function) {
 	rem := c.Anchor("O4", pkgNodeInfo, "NodeInfo", "removeTaskResources")
 	if add != nil && rem != nil {
 		tgt := func(t *Term) bool { return rootParam(t) == 0 && t.Op == "field" }
-		arm := func(f Fact) bool {
-			return f.T.Op == "bin" && f.T.Name == "==" && strings.HasSuffix(f.T.Args[0].String(), ".Status") && rootParam(f.T.Args[0]) == 1
-		}
-		ea, er := extractEffects(fx, add, tgt, arm), extractEffects(fx, rem, tgt, arm)
+		ea, er := extractEffects(fx, add, tgt, statusArm, 0), extractEffects(fx, rem, tgt, statusArm, 0)
 		mism := pairInverse(ea, er)
 		c.Check(len(mism) == 0, "O4", "PAIR", funcKey(add)+" <-> "+funcKey(rem), add.Pos(), fmt.Sprintf("%d effects, all inverted per arm: %s", len(ea), trunc(effectsSummary(ea), 600)), "add/remove are not inverses: "+strings.Join(mism, "; "))
 		rel, okR := p.ConstInt(pkgPodStatus, "Releasing")
@@ -312,60 +310,29 @@ func runC01Rest(c *Ctx, isTA *ssa.Function) {
 		if !okR || !okP {
 			c.Undec("O4", "CONST", "pod_status.Releasing/Pipelined", add.Pos(), "status constants not found")
 		} else {
-			relArm, pipArm := "<no Releasing arm>", "<no Pipelined arm>"
-			for _, e := range ea {
-				if strings.Contains(e.Arm, "NOT") {
-					continue
-				}
-				if strings.HasSuffix(e.Arm, fmt.Sprintf("== const:%d)", rel)) {
-					relArm = e.Arm
-				}
-				if strings.HasSuffix(e.Arm, fmt.Sprintf("== const:%d)", pip)) {
-					pipArm = e.Arm
-				}
-			}
+			relArm, pipArm := fmt.Sprintf("Status==%d", rel), fmt.Sprintf("Status==%d", pip)
+			neg := []string{"!" + relArm, "!" + pipArm}
+			sort.Strings(neg)
+			defArm := strings.Join(neg, " & ")
 			type exp struct {
-				arm   string
-				exact bool
-				field string
-				op    string
-				want  bool
-				why   string
-			}
-			isDefault := func(e Effect) bool { return e.Arm != "" && !strings.Contains(e.Arm, " == ") || strings.HasPrefix(e.Arm, "NOT") }
-			var defArm string
-			for _, e := range ea {
-				if isDefault(e) {
-					defArm = e.Arm
-				}
+				arm, name, field, op string
+				want                 bool
+				why                  string
 			}
 			exps := []exp{
-				{"", true, ".Used", "+", true, "every occupying pod raises Used"},
-				{relArm, true, ".Idle", "-", true, "a terminating (Releasing) pod still occupies Idle"},
-				{relArm, true, ".Releasing", "+", true, "a terminating pod is counted as releasing capacity"},
-				{pipArm, true, ".Releasing", "-", true, "a nominated (Pipelined) pod consumes releasing capacity"},
-				{pipArm, true, ".Idle", "-", false, "a nominated pod must not consume Idle"},
-				{pipArm, true, ".Idle", "+", false, "a nominated pod must not change Idle"},
-				{defArm, true, ".Idle", "-", true, "every other occupying pod lowers Idle"},
+				{"", "always", ".Used", "+", true, "every occupying pod raises Used"},
+				{relArm, "Status==Releasing", ".Idle", "-", true, "a terminating (Releasing) pod still occupies Idle"},
+				{relArm, "Status==Releasing", ".Releasing", "+", true, "a terminating pod is counted as releasing capacity"},
+				{pipArm, "Status==Pipelined", ".Releasing", "-", true, "a nominated (Pipelined) pod consumes releasing capacity"},
+				{pipArm, "Status==Pipelined", ".Idle", "-", false, "a nominated pod must not consume Idle"},
+				{pipArm, "Status==Pipelined", ".Idle", "+", false, "a nominated pod must not change Idle"},
+				{defArm, "default", ".Idle", "-", true, "every other occupying pod lowers Idle"},
+				{defArm, "default", ".Releasing", "+", false, "a bound/running pod is not releasing capacity"},
 			}
 			for _, e := range exps {
-				got := hasEffect(ea, e.arm, e.exact, e.field, e.op)
-				armName := e.arm
-				switch e.arm {
-				case "":
-					armName = "always"
-				case relArm:
-					armName = "Status==Releasing"
-				case pipArm:
-					armName = "Status==Pipelined"
-				default:
-					armName = "default"
-				}
-				construct := fmt.Sprintf("%s arm[%s] %s %s expected=%v", funcKey(add), armName, e.field, e.op, e.want)
+				got := hasEffect(ea, e.arm, e.field, e.op)
+				construct := fmt.Sprintf("%s arm[%s] %s %s expected=%v", funcKey(add), e.name, e.field, e.op, e.want)
 				c.Check(got == e.want, "O4", "PAIR", construct, add.Pos(), e.why, fmt.Sprintf("arm table of addTaskResources deviates from the property: %s (found=%v); effects: %s", e.why, got, trunc(effectsSummary(ea), 500)))
-			}
-			if defArm == "" {
-				c.Viol("O4", "PAIR", funcKey(add)+" default arm", add.Pos(), "no default status arm lowering Idle was found")
 			}
 		}
 	}
